@@ -37,6 +37,13 @@ VStr(x) == [k |-> "str", s |-> x]
 VArr(x) == [k |-> "arr", a |-> x]
 VObj(x) == [k |-> "obj", o |-> x]
 IsNull(v) == v.k = "null"
+(* null, an empty collection, or a collection of such: what a disabled or empty
+   mapped call may look like *)
+RECURSIVE Nullish(_)
+Nullish(v) == CASE v.k = "null" -> TRUE
+                [] v.k = "arr" -> \A i \in DOMAIN v.a : Nullish(v.a[i])
+                [] v.k = "obj" -> \A x \in DOMAIN v.o : Nullish(v.o[x])
+                [] OTHER -> FALSE
 
 Range(s) == {s[i] : i \in DOMAIN s}
 SeqToFn(s) == [x \in {s[i].n : i \in DOMAIN s} |->
@@ -131,9 +138,28 @@ ChunkCount(st, args) ==
            [] st.chunks.k = "len" -> IF args[st.chunks.src].k = "arr"
                                       THEN Len(args[st.chunks.src].a) ELSE 0
 
-(* Run one stage instance: the invocations it makes and its outputs. *)
-StageRun(p, st, args, path, idx, deps) ==
-    LET inst == InstId(path, idx)
+(* Run one stage instance: the invocations it makes and its outputs.
+   A stage inside mapped pipelines has one fork per combination of the mapped
+   dimensions its (transitively resolved) inputs and disabling conditions depend
+   on - `dims` - not of all enclosing dimensions. *)
+(* TLC applies [x \in S |-> e] lazily, re-evaluating e at every application;
+   Tup forces a function over 1..n into a tuple of evaluated values. *)
+RECURSIVE Tup(_, _, _)
+Tup(f, i, n) == IF i > n THEN <<>> ELSE <<f[i]>> \o Tup(f, i + 1, n)
+
+RECURSIVE Ghosts(_)
+Ghosts(inv) == IF inv = <<>> THEN <<>>
+               ELSE (IF \E i \in DOMAIN Head(inv).idx : Head(inv).idx[i] = "?" THEN <<>>
+                     ELSE <<[Head(inv) EXCEPT !.ghost = TRUE]>>) \o Ghosts(Tail(inv))
+
+RECURSIVE IdxOf(_, _)
+IdxOf(cidx, dims) == IF cidx = <<>> THEN <<>>
+                     ELSE (IF Head(cidx).d \in dims THEN <<Head(cidx).k>> ELSE <<>>)
+                          \o IdxOf(Tail(cidx), dims)
+
+StageRun(p, st, args, path, cidx, deps, dims) ==
+    LET idx == IdxOf(cidx, dims)
+        inst == InstId(path, idx)
         n == ChunkCount(st, args)
         cargs(i) == IF st.split THEN [x \in DOMAIN args \cup {"ci"} |->
                                          IF x = "ci" THEN VInt(i - 1) ELSE args[x]]
@@ -148,84 +174,88 @@ StageRun(p, st, args, path, idx, deps) ==
                 THEN [x \in {st.rules[j].n : j \in DOMAIN st.rules} |->
                         RuleVal(Lookup(st.rules, x).r, args, inst, x, 0, couts)]
                 ELSE couts[1]
-        inv == (IF st.split THEN <<[inst |-> inst, call |-> path, idx |-> idx, kind |-> "split",
-                                    chunk |-> 0, args |-> VObj(args), nchunks |-> n,
-                                    deps |-> deps, couts |-> Null]>> ELSE <<>>)
-               \o [i \in 1..n |-> [inst |-> inst, call |-> path, idx |-> idx, kind |-> "main",
-                                   chunk |-> i - 1, args |-> VObj(cargs(i)), nchunks |-> n,
-                                   deps |-> deps, couts |-> Null]]
-               \o (IF st.split THEN <<[inst |-> inst, call |-> path, idx |-> idx, kind |-> "join",
-                                       chunk |-> 0, args |-> VObj(args), nchunks |-> n, deps |-> deps,
-                                       couts |-> VArr([i \in 1..n |-> VObj(couts[i])])]>> ELSE <<>>)
+        base == [inst |-> inst, call |-> path, idx |-> idx, nchunks |-> n, deps |-> deps, ghost |-> FALSE]
+        inv == (IF st.split THEN <<base @@ [kind |-> "split", chunk |-> 0, args |-> VObj(args),
+                                            couts |-> Null, outs |-> Null]>> ELSE <<>>)
+               \o [i \in 1..n |-> base @@ [kind |-> "main", chunk |-> i - 1, args |-> VObj(cargs(i)),
+                                           couts |-> Null, outs |-> VObj(couts[i])]]
+               \o (IF st.split THEN <<base @@ [kind |-> "join", chunk |-> 0, args |-> VObj(args),
+                                               outs |-> VObj(outs),
+                                               couts |-> VArr([i \in 1..n |-> VObj(couts[i])])]>> ELSE <<>>)
     IN [dis |-> FALSE, outs |-> outs, inv |-> inv, insts |-> {inst},
-        pv |-> [x \in DOMAIN outs |-> {inst}], allpv |-> {inst}]
+        pv |-> [x \in DOMAIN outs |-> {inst}], dm |-> [x \in DOMAIN outs |-> dims]]
 
 ---------------------------------------------------------------------------
-(* Expressions.  env = [self  : param -> value,  selfpv : param -> prov,
-                       selft : param -> type,
-                       res   : call id -> result, rest : call id -> out -> type] *)
-ResVal(p, r) == IF r.dis THEN Null ELSE VObj(r.outs)
+(* Expressions.  env = [self, selfpv, selfdm, selft : per parameter value /
+   provenance / dimensions / type;  res : call id -> result]
+   Every evaluated expression carries  v  (value), pv (the stage instances
+   whose outputs it is made of) and dm (the mapped dimensions it varies with). *)
 
 RECURSIVE Eval(_, _, _)
 Eval(p, env, e) ==
-    CASE e.k = "lit" -> [v |-> e.v, pv |-> {}]
+    CASE e.k = "lit" -> [v |-> e.v, pv |-> {}, dm |-> {}]
       [] e.k = "self" ->
-            [v |-> Proj(p, env.selft[e.id], env.self[e.id], e.path), pv |-> env.selfpv[e.id]]
+            [v |-> Proj(p, env.selft[e.id], env.self[e.id], e.path),
+             pv |-> env.selfpv[e.id], dm |-> env.selfdm[e.id]]
       [] e.k = "ref" ->
             LET r == env.res[e.call] IN
-            IF r.dis THEN [v |-> Null, pv |-> r.allpv]
-            ELSE IF e.out = "" THEN [v |-> r.val, pv |-> r.allpv]
-            ELSE [v |-> Proj(p, env.rest[e.call], r.val, <<e.out>> \o e.path),
-                  pv |-> r.opv[e.out]]
+            IF r.dis THEN [v |-> Null, pv |-> r.allpv,
+                           dm |-> IF e.out = "" THEN r.alldm ELSE r.odm[e.out]]
+            ELSE IF e.out = "" THEN [v |-> r.val, pv |-> r.allpv, dm |-> r.alldm]
+            ELSE [v |-> Proj(p, r.t, r.val, <<e.out>> \o e.path),
+                  pv |-> r.opv[e.out], dm |-> r.odm[e.out]]
       [] e.k = "arrx" ->
             LET xs == [i \in DOMAIN e.es |-> Eval(p, env, e.es[i])] IN
-            [v |-> VArr([i \in DOMAIN xs |-> xs[i].v]), pv |-> UNION {xs[i].pv : i \in DOMAIN xs}]
+            [v |-> VArr([i \in DOMAIN xs |-> xs[i].v]), pv |-> UNION {xs[i].pv : i \in DOMAIN xs},
+             dm |-> UNION {xs[i].dm : i \in DOMAIN xs}]
       [] e.k = "objx" ->
             LET xs == [i \in DOMAIN e.fs |-> Eval(p, env, e.fs[i].e)] IN
             [v |-> VObj([x \in {e.fs[i].n : i \in DOMAIN e.fs} |->
                            xs[CHOOSE i \in DOMAIN e.fs : e.fs[i].n = x].v]),
-             pv |-> UNION {xs[i].pv : i \in DOMAIN xs}]
+             pv |-> UNION {xs[i].pv : i \in DOMAIN xs}, dm |-> UNION {xs[i].dm : i \in DOMAIN xs}]
       [] e.k = "split" -> Eval(p, env, e.e)
-
-(* The result of a (possibly mapped) call as a value of the caller:
-   .val  value of the whole call (object of outputs; array/map of those when
-         mapped; Null when disabled), .opv provenance per output *)
 
 Callee(p, name) == IF IsStage(p, name) THEN ByName(p.stages, name) ELSE ByName(p.pipelines, name)
 
 StructTypeOfOuts(p, name) == [b |-> "@" \o name, a |-> 0, m |-> 0, ia |-> 0]
 
-(* types of call results: we register one pseudo struct "@callee" per callable *)
-OutsAsFields(c) == c.outs
+(* types of call results: one pseudo struct "@callee" per callable *)
 AllStructs(p) == p.structs \o [i \in DOMAIN p.stages |-> [name |-> "@" \o p.stages[i].name, fields |-> p.stages[i].outs]]
                            \o [i \in DOMAIN p.pipelines |-> [name |-> "@" \o p.pipelines[i].name, fields |-> p.pipelines[i].outs]]
 
-RECURSIVE EvalPipe(_, _, _, _, _, _, _)
+RECURSIVE EvalPipe(_, _, _, _, _)
 RECURSIVE EvalCall(_, _, _, _, _, _)
 RECURSIVE EvalCalls(_, _, _, _, _, _)
 
-(* one instance of a callable with evaluated arguments
-   args : param -> value, apv : param -> prov, extra : prov that every job below depends on *)
-EvalCallable(p, name, args, apv, path, idx, extra) ==
+(* ctx = [idx   : Seq [d, k]  enclosing mapped dimensions with the current key,
+          extra : instances every job below depends on (preflights, disabling
+                  conditions, map sources of the enclosing calls),
+          xdm   : dimensions every job below varies with (disabling conditions)]
+   A = [v, pv, dm : per parameter] *)
+EvalCallable(p, name, A, path, ctx) ==
     IF IsStage(p, name) THEN
-        StageRun(p, ByName(p.stages, name), args, path, idx,
-                 UNION {apv[x] : x \in DOMAIN apv} \cup extra)
-    ELSE EvalPipe(p, ByName(p.pipelines, name), args, apv, path, idx, extra)
+        \* An argument that denotes null / an empty collection / a collection of
+        \* nulls is not counted as a dependency: the value may be so whatever its
+        \* producers do (null or empty source, disabled either way) and the
+        \* resolver may know that statically.  This keeps
+        \* Deps an under-approximation of the true data dependencies.
+        StageRun(p, ByName(p.stages, name), A.v, path, ctx.idx,
+                 UNION {A.pv[x] : x \in {y \in DOMAIN A.pv : ~Nullish(A.v[y])}} \cup ctx.extra,
+                 UNION {A.dm[x] : x \in DOMAIN A.dm} \cup ctx.xdm)
+    ELSE EvalPipe(p, ByName(p.pipelines, name), A, path, ctx)
 
-EvalPipe(p, pl, args, apv, path, idx, extra) ==
-    LET pre == {pl.calls[i].id : i \in {j \in DOMAIN pl.calls : pl.calls[j].pre}}
-        env0 == [self |-> args, selfpv |-> apv, selft |-> [x \in DOMAIN args |-> Lookup(pl.ins, x).t],
-                 res |-> <<>>, rest |-> <<>>]
-        done == EvalCalls(p, pl, env0, 1, path, [idx |-> idx, extra |-> extra])
-        rets == [i \in DOMAIN pl.ret |-> Eval(p, done.env, pl.ret[i].e)]
-        outs == [x \in {pl.ret[i].n : i \in DOMAIN pl.ret} |->
-                    LET i == CHOOSE i \in DOMAIN pl.ret : pl.ret[i].n = x IN
-                    Conv(p, Lookup(pl.outs, x).t, rets[i].v)]
-        pv == [x \in {pl.ret[i].n : i \in DOMAIN pl.ret} |->
-                    rets[CHOOSE i \in DOMAIN pl.ret : pl.ret[i].n = x].pv]
-    IN [dis |-> FALSE, outs |-> outs, pv |-> pv, inv |-> done.inv,
-        insts |-> {done.inv[i].inst : i \in DOMAIN done.inv},
-        allpv |-> UNION {pv[x] : x \in DOMAIN pv}]
+EvalPipe(p, pl, A, path, ctx) ==
+    LET env0 == [self |-> A.v, selfpv |-> A.pv, selfdm |-> A.dm,
+                 selft |-> [x \in DOMAIN A.v |-> Lookup(pl.ins, x).t], res |-> <<>>]
+        done == EvalCalls(p, pl, env0, 1, path, ctx)
+        rets == Tup([i \in DOMAIN pl.ret |-> Eval(p, done.env, pl.ret[i].e)], 1, Len(pl.ret))
+        ri(x) == CHOOSE i \in DOMAIN pl.ret : pl.ret[i].n = x
+        onames == {pl.ret[i].n : i \in DOMAIN pl.ret}
+    IN [dis |-> FALSE,
+        outs |-> [x \in onames |-> Conv(p, Lookup(pl.outs, x).t, rets[ri(x)].v)],
+        pv |-> [x \in onames |-> rets[ri(x)].pv],
+        dm |-> [x \in onames |-> rets[ri(x)].dm],
+        inv |-> done.inv, insts |-> {done.inv[i].inst : i \in DOMAIN done.inv}]
 
 (* evaluate calls k..n of pipeline pl in order, threading env and invocations *)
 EvalCalls(p, pl, env, k, path, ctx) ==
@@ -237,44 +267,44 @@ EvalCalls(p, pl, env, k, path, ctx) ==
                    ELSE UNION {env.res[pl.calls[j].id].insts :
                                  j \in {j \in 1..(k-1) : pl.calls[j].pre}}
           r == EvalCall(p, pl, env, c, path, [ctx EXCEPT !.extra = ctx.extra \cup prepv])
-          callee == Callee(p, c.callee)
-          env2 == [env EXCEPT !.res = (c.id :> r) @@ env.res,
-                              !.rest = (c.id :> r.t) @@ env.rest]
+          env2 == [env EXCEPT !.res = (c.id :> r) @@ env.res]
           rest == EvalCalls(p, pl, env2, k + 1, path, ctx)
       IN [env |-> rest.env, inv |-> r.inv \o rest.inv]
-
-UnionPv(rs, ks, o) == UNION {rs[x].pv[o] : x \in ks}
 
 EvalCall(p, pl, env, c, path, ctx) ==
     LET callee == Callee(p, c.callee)
         cpath == path \o "." \o c.id
         ot == StructTypeOfOuts(p, c.callee)
         onames == {callee.outs[i].n : i \in DOMAIN callee.outs}
-        dv == IF c.dis.k = "none" THEN [v |-> VBool(FALSE), pv |-> {}] ELSE Eval(p, env, c.dis)
+        dv == IF c.dis.k = "none" THEN [v |-> VBool(FALSE), pv |-> {}, dm |-> {}] ELSE Eval(p, env, c.dis)
         isdis == dv.v.k = "bool" /\ dv.v.b
-        bs == [i \in DOMAIN c.binds |-> Eval(p, env, c.binds[i].e)]
+        bs == Tup([i \in DOMAIN c.binds |-> Eval(p, env, c.binds[i].e)], 1, Len(c.binds))
         bname(i) == c.binds[i].n
+        bi(x) == CHOOSE i \in DOMAIN c.binds : bname(i) = x
+        pnames == {bname(i) : i \in DOMAIN c.binds}
         ptype(n) == Lookup(callee.ins, n).t
         splits == {i \in DOMAIN c.binds : c.binds[i].e.k = "split"}
-        allpv == UNION {bs[i].pv : i \in DOMAIN bs} \cup dv.pv
-        mk(val, opv, inv, t, dis) ==
-            [dis |-> dis, val |-> val, opv |-> opv, inv |-> inv, t |-> t,
+        mk(val, opv, odm, inv, t, dis) ==
+            [dis |-> dis, val |-> val, opv |-> opv, odm |-> odm, inv |-> inv, t |-> t,
              insts |-> {inv[i].inst : i \in DOMAIN inv},
-             allpv |-> IF dis THEN dv.pv \cup ctx.extra ELSE UNION {opv[o] : o \in DOMAIN opv}]
-        nopv == [o \in onames |-> dv.pv]
+             allpv |-> IF dis THEN dv.pv \cup ctx.extra ELSE UNION {opv[o] : o \in DOMAIN opv},
+             alldm |-> UNION {odm[o] : o \in DOMAIN odm} \cup (IF dis THEN dv.dm \cup ctx.xdm ELSE {})]
+        inner == [ctx EXCEPT !.extra = ctx.extra \cup dv.pv, !.xdm = ctx.xdm \cup dv.dm]
     IN
-    IF isdis THEN mk(Null, nopv, <<>>, ot, TRUE)
-    ELSE IF c.mode = "none" THEN
-        LET args == [x \in {bname(i) : i \in DOMAIN c.binds} |->
-                        LET i == CHOOSE i \in DOMAIN c.binds : bname(i) = x IN
-                        Conv(p, ptype(x), bs[i].v)]
-            apv == [x \in DOMAIN args |-> bs[CHOOSE i \in DOMAIN c.binds : bname(i) = x].pv]
-            r == EvalCallable(p, c.callee, args, apv, cpath, ctx.idx, ctx.extra \cup dv.pv)
-        IN mk(VObj(r.outs), r.pv, r.inv, ot, FALSE)
+    IF c.mode = "none" THEN
+        LET A == [v |-> [x \in pnames |-> Conv(p, ptype(x), bs[bi(x)].v)],
+                  pv |-> [x \in pnames |-> bs[bi(x)].pv],
+                  dm |-> [x \in pnames |-> bs[bi(x)].dm]]
+            r == EvalCallable(p, c.callee, A, cpath, inner)
+        IN
+        \* which dimensions a result varies with is a static matter: a disabled
+        \* call has the dimensions it would have had
+        IF isdis THEN mk(Null, [o \in onames |-> dv.pv], [o \in onames |-> r.dm[o] \cup dv.dm], <<>>, ot, TRUE)
+        ELSE mk(VObj(r.outs), [o \in onames |-> r.pv[o] \cup dv.pv], [o \in onames |-> r.dm[o] \cup dv.dm],
+              r.inv, ot, FALSE)
     ELSE
         \* mapped call: keys = indices (arrays) or keys (typed maps) of the split sources
-        LET srcs == {bs[i].v : i \in splits}
-            anynull == \E i \in splits : IsNull(bs[i].v)
+        LET anynull == \E i \in splits : IsNull(bs[i].v)
             first == bs[CHOOSE i \in splits : TRUE].v
             keys == IF anynull THEN <<>>
                     ELSE IF c.mode = "array" THEN [i \in DOMAIN first.a |-> i]
@@ -282,34 +312,74 @@ EvalCall(p, pl, env, c, path, ctx) ==
             elemOf(v, key) == IF c.mode = "array" THEN v.a[key] ELSE v.o[key]
             keystr(key) == IF c.mode = "array" THEN ToString(key - 1) ELSE key
             spv == UNION {bs[i].pv : i \in splits}
+            sdm == UNION {bs[i].dm : i \in splits}
             one(key) ==
-                LET args == [x \in {bname(i) : i \in DOMAIN c.binds} |->
-                                LET i == CHOOSE i \in DOMAIN c.binds : bname(i) = x IN
-                                IF i \in splits THEN Conv(p, ptype(x), elemOf(bs[i].v, key))
-                                ELSE Conv(p, ptype(x), bs[i].v)]
-                    apv == [x \in DOMAIN args |-> bs[CHOOSE i \in DOMAIN c.binds : bname(i) = x].pv]
-                IN EvalCallable(p, c.callee, args, apv, cpath,
-                                ctx.idx \o <<keystr(key)>>, ctx.extra \cup dv.pv \cup spv)
-            rs == [j \in DOMAIN keys |-> one(keys[j])]
+                LET A == [v |-> [x \in pnames |->
+                                   IF bi(x) \in splits THEN Conv(p, ptype(x), elemOf(bs[bi(x)].v, key))
+                                   ELSE Conv(p, ptype(x), bs[bi(x)].v)],
+                          pv |-> [x \in pnames |-> bs[bi(x)].pv],
+                          dm |-> [x \in pnames |-> IF bi(x) \in splits THEN bs[bi(x)].dm \cup {cpath}
+                                                   ELSE bs[bi(x)].dm]]
+                IN EvalCallable(p, c.callee, A, cpath,
+                                \* a job below depends on the collection through the
+                                \* element it receives (pv of the split argument); with
+                                \* several zipped collections the runtime may take the
+                                \* fork count from any one of them, so nothing more is
+                                \* demanded here
+                                [inner EXCEPT !.idx = ctx.idx \o <<[d |-> cpath, k |-> keystr(key)]>>])
+            rs == Tup([j \in DOMAIN keys |-> one(keys[j])], 1, Len(keys))
+            \* the static dimensions of the result, also when there is no element
+            probe == LET A == [v |-> [x \in pnames |->
+                                        IF bi(x) \in splits THEN Null ELSE Conv(p, ptype(x), bs[bi(x)].v)],
+                               pv |-> [x \in pnames |-> {}],
+                               dm |-> [x \in pnames |-> IF bi(x) \in splits THEN bs[bi(x)].dm \cup {cpath}
+                                                        ELSE bs[bi(x)].dm]]
+                     IN EvalCallable(p, c.callee, A, cpath,
+                                     [inner EXCEPT !.idx = ctx.idx \o <<[d |-> cpath, k |-> "?"]>>])
             mt == IF c.mode = "array" THEN [ot EXCEPT !.a = 1] ELSE [ot EXCEPT !.m = 1]
             val == IF anynull THEN Null
                    ELSE IF c.mode = "array" THEN VArr([j \in DOMAIN keys |-> VObj(rs[j].outs)])
                    ELSE VObj([x \in Range(keys) |->
                                 VObj(rs[CHOOSE j \in DOMAIN keys : keys[j] = x].outs)])
-            opv == [o \in onames |-> spv \cup dv.pv \cup UNION {rs[j].pv[o] : j \in DOMAIN keys}]
+            \* The merged output o depends on the producers of the collection(s) it is
+            \* merged over.  When o does not vary with this dimension (no stage forked
+            \* by this call contributes to it) the dependency is marked "~": the
+            \* runtime is known not to honour it (finding "unforked-merge").
+            forked(o) == IF keys = <<>> THEN cpath \in probe.dm[o]
+                         ELSE \E j \in DOMAIN keys : cpath \in rs[j].dm[o]
+            opv == [o \in onames |-> (IF forked(o) THEN spv ELSE {"~" \o x : x \in spv})
+                                     \cup dv.pv \cup UNION {rs[j].pv[o] : j \in DOMAIN keys}]
+            odm == [o \in onames |-> sdm \cup dv.dm \cup (((IF keys = <<>> THEN probe.dm[o] ELSE {}) \cup UNION {rs[j].dm[o] : j \in DOMAIN keys}) \ {cpath})]
             RECURSIVE Cat(_)
             Cat(j) == IF j > Len(keys) THEN <<>> ELSE rs[j].inv \o Cat(j + 1)
-        IN mk(val, opv, Cat(1), mt, FALSE)
+            \* Observed behaviour of the runtime, recorded as a finding (C03): with no
+            \* element at all, stages below that do not vary with this dimension are
+            \* still executed once.  They are listed as "ghost" invocations.
+            ghosts == IF keys # <<>> THEN <<>> ELSE Ghosts(probe.inv)
+        IN IF isdis THEN mk(Null, [o \in onames |-> dv.pv], odm, <<>>, mt, TRUE)
+           ELSE mk(val, opv, odm, Cat(1) \o ghosts, mt, FALSE)
 
 ---------------------------------------------------------------------------
 (* Whole program *)
+(* a stage that does not vary with an enclosing dimension is evaluated once per
+   element by the compositional definition above but is one instance: keep the
+   first occurrence of every (instance, kind, chunk) *)
+RECURSIVE Dedup(_, _)
+Dedup(inv, seen) ==
+    IF inv = <<>> THEN <<>>
+    ELSE LET h == Head(inv)
+             key == <<h.inst, h.kind, h.chunk>>
+         IN IF key \in seen THEN Dedup(Tail(inv), seen)
+            ELSE <<h>> \o Dedup(Tail(inv), seen \cup {key})
+
 Run(p) ==
     LET pl == ByName(p.pipelines, p.top.callee)
         q == [p EXCEPT !.structs = AllStructs(p)]
-        args == [x \in {p.top.args[i].n : i \in DOMAIN p.top.args} |->
-                    Conv(q, Lookup(pl.ins, x).t, Lookup(p.top.args, x).e.v)]
-        apv == [x \in DOMAIN args |-> {}]
-    IN EvalPipe(q, pl, args, apv, pl.name, <<>>, {})
+        pn == {p.top.args[i].n : i \in DOMAIN p.top.args}
+        A == [v |-> [x \in pn |-> Conv(q, Lookup(pl.ins, x).t, Lookup(p.top.args, x).e.v)],
+              pv |-> [x \in pn |-> {}], dm |-> [x \in pn |-> {}]]
+        r == EvalPipe(q, pl, A, pl.name, [idx |-> <<>>, extra |-> {}, xdm |-> {}])
+    IN [r EXCEPT !.inv = Dedup(r.inv, {})]
 
 Invocations(p) == Run(p).inv
 TopOuts(p) == VObj(Run(p).outs)
